@@ -42,8 +42,45 @@ def log(*a):
     print(*a, file=sys.stderr, flush=True)
 
 
+TIER = "quick"
+
+
+def engine_timeout():
+    """an engine that does not finish is a finding (the implementation blocks), not a reason to wait for ever"""
+    return 900 if TIER == "quick" else 3 * 3600
+
+
+class EngineHang(Exception):
+    pass
+
+
 def run(cmd, cwd=None, env=None, timeout=None, check=False, stdin=None, stdout=subprocess.PIPE):
     t0 = time.time()
+    if timeout is not None and stdout == subprocess.PIPE and stdin is None and not isinstance(cmd, str):
+        # engines: on timeout ask the Go runtime for a goroutine dump (SIGQUIT), then kill
+        import signal
+        import tempfile
+        with tempfile.TemporaryFile(mode="w+") as tf:
+            pr = subprocess.Popen(cmd, cwd=cwd, env=env, stdout=tf, stderr=subprocess.STDOUT, text=True)
+            try:
+                pr.wait(timeout=timeout)
+            except subprocess.TimeoutExpired:
+                pr.send_signal(signal.SIGQUIT)
+                try:
+                    pr.wait(timeout=20)
+                except subprocess.TimeoutExpired:
+                    pr.kill()
+                    pr.wait()
+                tf.seek(0)
+                out = tf.read()
+                raise EngineHang("%s did not finish within %d s; goroutine dump (tail):\n%s" % (" ".join(cmd[:3]), timeout, out[-6000:]))
+            tf.seek(0)
+            out = tf.read()
+        p = subprocess.CompletedProcess(cmd, pr.returncode, out, None)
+        if check and p.returncode != 0:
+            raise RuntimeError("command failed (%s): %s\n%s" % (p.returncode, cmd, (p.stdout or "")[-4000:]))
+        p.wall = time.time() - t0
+        return p
     p = subprocess.run(cmd, cwd=cwd, env=env, timeout=timeout, stdin=stdin, stdout=stdout,
                        stderr=subprocess.STDOUT, text=True, shell=isinstance(cmd, str))
     if check and p.returncode != 0:
